@@ -490,6 +490,10 @@ def subgraph(types: Iterable[Type], fun: Callable[..., Iterable[Var]]) -> Graph:
     if not callable(fun):
         raise TypeError("Subgraph callback must be callable.")
     outs = fun(*ins)
-    if not (isinstance(outs, Iterable) and all(isinstance(out, Var) for out in outs)):
+    if not isinstance(outs, Iterable):
+        raise TypeError("Subgraph result must be an Iterable of Var.")
+    # Materialise once: the result may be a one-shot iterable (like a generator)
+    outs = tuple(outs)
+    if not all(isinstance(out, Var) for out in outs):
         raise TypeError("Subgraph result must be an Iterable of Var.")
     return enum_results(*outs).with_arguments(*ins)._with_constructor(fun)
